@@ -225,11 +225,12 @@ func CreateCertificate(template, parent *Certificate, publicKey *sm2.PublicKey, 
 
 	c.Raw = tbsCertContents
 
+	// An SM2 signer hashes the message itself (Z_A || M under SM3) and the
+	// verifier checks SM2 signatures over the raw signed bytes, whatever
+	// algorithm the template names or leaves to default; every other signer
+	// is handed the digest.
 	digest := tbsCertContents
-	switch template.SignatureAlgorithm {
-	case SM2WithSM3, SM2WithSHA1, SM2WithSHA256:
-		break
-	default:
+	if _, isSM2 := signer.Public().(*sm2.PublicKey); !isSM2 {
 		h := hashFunc.New()
 		h.Write(tbsCertContents)
 		digest = h.Sum(nil)
